@@ -158,6 +158,11 @@ impl DamageWorkload {
             // array: damage confined to a small last frame, i.e. to whatever the format stores last
             // (the genome length is stepped until the uncompressed length lands just past 64 KiB)
             FileSpec { kind: "tailframe".into(), k: 31, single_strand: false, n: 2, len: 5200, gen_seed: g(10) },
+            // two samples, one of them holding two copies of the genome that differ every ~150
+            // bases (so its middle bases are ambiguity codes at some dozens of rows), with a row count
+            // that puts the 64 KiB frame boundary inside the array of bases: an in-place
+            // `weed --ambig-mask` rewrites bases in both frames and keeps every offset of the file
+            FileSpec { kind: "ambigframes".into(), k: 31, single_strand: false, n: 2, len: 4700, gen_seed: g(11) },
         ];
         if tier == Tier::Thorough {
             v.push(FileSpec { kind: "small128k63".into(), k: 63, single_strand: false, n: 2, len: 200, gen_seed: g(6) });
@@ -167,7 +172,7 @@ impl DamageWorkload {
         v
     }
     fn slices(kind: &str) -> usize {
-        if kind.starts_with("multiframe") || kind == "tailframe" {
+        if kind.starts_with("multiframe") || kind == "tailframe" || kind == "ambigframes" {
             96
         } else if kind == "stored128" {
             128
@@ -182,7 +187,7 @@ impl DamageWorkload {
             let s = Self::slices(&f.kind);
             // the large stored-chunk file is sampled at the quick tier (every byte with one seeded bit,
             // every 16th prefix) and enumerated completely at the thorough tier
-            let complete = tier == Tier::Thorough || !matches!(f.kind.as_str(), "stored128" | "tailframe");
+            let complete = tier == Tier::Thorough || !matches!(f.kind.as_str(), "stored128" | "tailframe" | "ambigframes");
             for i in 0..s {
                 v.push((f.clone(), Mode::Loads { slice: i, of: s, prefix_every: if complete { 1 } else { 16 }, all_bits: complete, bit_seed: mix(self.base, i as u64) }));
             }
@@ -200,6 +205,10 @@ impl DamageWorkload {
             v.push((f.clone(), Mode::Procs { seed: mix(self.base, 1000 + i as u64), count: 6 }));
         }
         v.push((files[4].clone(), Mode::Procs { seed: mix(self.base, 999), count: if tier == Tier::Quick { 4 } else { 40 } }));
+        // the shape-preserving in-place rewrite on the file made for it
+        for i in 0..if tier == Tier::Quick { 2 } else { 12 } {
+            v.push((files[7].clone(), Mode::Crash { op: "mask".into(), seed: mix(self.base, 3000 + i as u64), count: 4 }));
+        }
         for i in 0..nc {
             let f = &files[i % 5];
             let op = ["delete", "weed", "merge", "build"][(i / 5 + i) % 4];
@@ -213,6 +222,24 @@ fn samples_for(f: &FileSpec) -> Vec<Sample> {
     let mut rng = Rng::new(f.gen_seed);
     if f.kind == "fits64" {
         return gen_fits64_samples(&mut rng, f.n, f.k, "s");
+    }
+    if f.kind == "ambigframes" {
+        let g = rng.dna(f.len);
+        let mut g2 = g.clone();
+        let mut p = 60;
+        while p + 60 < g2.len() {
+            g2[p] = b"ACGT"[(b"ACGT".iter().position(|b| *b == g2[p]).unwrap() + 1 + rng.below(3)) % 4];
+            p += rng.range(110, 190);
+        }
+        let mut g3 = g.clone();
+        for _ in 0..6 {
+            let q = rng.below(g3.len());
+            g3[q] = b"ACGT"[(b"ACGT".iter().position(|b| *b == g3[q]).unwrap() + 1) % 4];
+        }
+        return vec![
+            Sample { name: "s0".into(), records: vec![("a".into(), g), ("b".into(), g2)], wrap: 70, path: None, lower: false },
+            Sample { name: "s1".into(), records: vec![("a".into(), g3)], wrap: 70, path: None, lower: false },
+        ];
     }
     let mut o = GenomeOpts::plain(f.len);
     o.snp_sites = 4;
@@ -282,6 +309,32 @@ impl<'a> Ex<'a> {
                 } else {
                     len = len.saturating_sub(((u - want) / per_base).max(1)).max(4 * self.c.file.k);
                 }
+            }
+            return Ok(None);
+        }
+        if self.c.file.kind == "ambigframes" {
+            // rows R with 9R < 64 KiB < 11R (k-mer list, then two bytes of bases per row), with margin
+            let mut len = self.c.file.len;
+            for _t in 0..40 {
+                let mut f = self.c.file.clone();
+                f.len = len;
+                let samples = samples_for(&f);
+                for s in &samples {
+                    self.dir.write(&s.file(), &s.bytes());
+                }
+                let r = self.run_seeded(self.build_args("orig", &samples), self.c.file.gen_seed >> 1, None)?;
+                if !r.ok() {
+                    return Ok(None);
+                }
+                let p = self.dir.p("orig.skf");
+                let rows = load_as::<u64>(p.to_str().unwrap()).map(|c| c.3.len()).unwrap_or(0);
+                if (6250..=6950).contains(&rows) {
+                    probe("c19_ambigframes_frame_boundary_inside_the_bases");
+                    return Ok(Some(samples));
+                }
+                let per_base = (rows as f64 / len.max(1) as f64).max(0.5);
+                let delta = ((6600.0 - rows as f64) / per_base) as i64;
+                len = (len as i64 + if delta == 0 { 1 } else { delta }).max(4 * self.c.file.k as i64) as usize;
             }
             return Ok(None);
         }
@@ -364,7 +417,7 @@ impl Workload for DamageWorkload {
         Some(self.plan(tier).len() as u64)
     }
     fn rule(&self) -> String {
-        "fault enumeration over seven valid files produced by real simulated processes (64-bit k=15, 128-bit k=41, k=37 whose k-mers fit in 64 bits, a 64-bit file rewritten in place by weed --filter-ambig-as-missing, a k=31 file of two compression frames, a k=63 one-sample file whose chunk snappy stores uncompressed, and a k=31 file whose second frame holds only the last 150..1500 bytes of the serialised array): every proper prefix and every single-bit flip (complete for the first five files at both tiers; the two large ones, 80-100 KB, are sampled at the quick tier, the last sixteenth of the small-last-frame file completely - every byte with one seeded bit, every 16th prefix - and complete at the thorough tier, which is therefore the exhaustive one; thorough also adds a k=63 file, a k=5 file and a 128-bit file of several frames, and more subcommand / crash samples) is given to MergeSkaArray::<u64>::load and ::<u128>::load, and an accepted image must give the original k, strand, names, k-mers and bases and be saved again as the same bytes as the original (so that stored state no accessor shows - counts, width, version - is compared too); a seeded sample of images goes to every subcommand as simulated processes; crash_at_byte(n) is injected into real build/merge/delete/weed writers. evaluations = loader calls + subcommand executions on damaged images; distinct_nontrivial = distinct damaged images (file, prefix length | byte, bit) - every one is non-trivial because it differs from the valid file".into()
+        "fault enumeration over seven valid files produced by real simulated processes (64-bit k=15, 128-bit k=41, k=37 whose k-mers fit in 64 bits, a 64-bit file rewritten in place by weed --filter-ambig-as-missing, a k=31 file of two compression frames, a k=63 one-sample file whose chunk snappy stores uncompressed, and a k=31 file whose second frame holds only the last 150..1500 bytes of the serialised array): every proper prefix and every single-bit flip (complete for the first five files at both tiers; the two large ones, 80-100 KB, are sampled at the quick tier, the last sixteenth of the small-last-frame file completely - every byte with one seeded bit, every 16th prefix - and complete at the thorough tier, which is therefore the exhaustive one; thorough also adds a k=63 file, a k=5 file and a 128-bit file of several frames, and more subcommand / crash samples) is given to MergeSkaArray::<u64>::load and ::<u128>::load, and an accepted image must give the original k, strand, names, k-mers and bases and be saved again as the same bytes as the original (so that stored state no accessor shows - counts, width, version - is compared too); a seeded sample of images goes to every subcommand as simulated processes; crash_at_byte(n) and write_error_at_byte(n) are injected into real build/merge/delete/weed writers (n = 0, every chunk boundary of the new file, seeded offsets), among them a shape-preserving in-place rewrite (weed --ambig-mask) of a two-frame file with ambiguity codes in both frames; what lies at the target afterwards must be nothing, the old file untouched, the complete new file, or a file that every loader and subcommand rejects (or that decodes to exactly the new - for a non-prefix also the old - content). evaluations = loader calls + subcommand executions on damaged images; distinct_nontrivial = distinct damaged images (file, prefix length | byte, bit) - every one is non-trivial because it differs from the valid file".into()
     }
     fn assumptions(&self) -> Vec<String> {
         vec![
@@ -597,6 +650,7 @@ impl Workload for DamageWorkload {
                 let (argv, target): (Vec<String>, &str) = match op.as_str() {
                     "delete" => (vec!["delete".into(), "--skf-file".into(), "work.skf".into(), first_name.clone()], "work.skf"),
                     "weed" => (vec!["weed".into(), "work.skf".into(), "ref.fa".into(), "--min-freq".into(), "0".into(), "--reverse".into()], "work.skf"),
+                    "mask" => (vec!["weed".into(), "work.skf".into(), "--min-freq".into(), "0".into(), "--ambig-mask".into()], "work.skf"),
                     "merge" => (vec!["merge".into(), "work.skf".into(), "good.skf".into(), "-o".into(), "target".into()], "target.skf"),
                     _ => (ex.build_args("target", &samples), "target.skf"),
                 };
@@ -609,10 +663,25 @@ impl Workload for DamageWorkload {
                     return Ok(out);
                 }
                 let full = dir.read(target).unwrap_or_default();
-                for crash_no in 0..*count {
-                    let n = if crash_no == 0 {
-                        0 // killed right after the file was re-created
-                    } else if rng.chance(25) { *rng.pick(&frame_ends(&full)) as u64 % full.len().max(1) as u64 } else { rng.below(full.len().max(1)) as u64 };
+                // what the complete new file and the file that was there before decode to
+                let wpath = dir.p("complete_copy.skf");
+                std::fs::write(&wpath, &full).expect("write copy");
+                let new_content: Option<Content> = load_as::<u64>(wpath.to_str().unwrap()).ok().or_else(|| load_as::<u128>(wpath.to_str().unwrap()).ok());
+                let _ = std::fs::remove_file(&wpath);
+                let old_bytes: Option<Vec<u8>> = if target == "work.skf" { Some(orig.clone()) } else { None };
+                if op == "mask" && new_content.as_ref().map(|c| c.3 != content.3) == Some(true) {
+                    probe("c19_mask_rewrites_bases_in_place");
+                }
+                // crash points: right after the file was re-created, at every chunk boundary of the new
+                // file (the places where a mixture of two valid streams would still be a valid stream),
+                // and `count` seeded offsets
+                let mut points: Vec<u64> = vec![0];
+                points.extend(frame_ends(&full).into_iter().filter(|e| *e < full.len()).map(|e| e as u64));
+                for _ in 1..*count {
+                    points.push(rng.below(full.len().max(1)) as u64);
+                }
+                for (crash_no, n) in points.into_iter().enumerate() {
+                    let _ = crash_no;
                     dir.write("work.skf", &orig);
                     dir.write("good.skf", &good);
                     if target != "work.skf" {
@@ -633,18 +702,33 @@ impl Workload for DamageWorkload {
                         probe("c19_write_error_unnoticed_by_writer_exit0");
                     }
                     if !as_error && r.signal != Some(libc::SIGXFSZ) && !r.refused() {
-                        viol = Some((format!("crash:{op}-not-interrupted"), format!("crash_at_byte({n}) of {} bytes: process ended with {}", full.len(), r.status_str())));
-                        break;
+                        // the writer never wrote past byte n (no crash happened): an observation about
+                        // the writer, not C19's business; what it left is judged like any other state
+                        probe("c19_crash_point_not_reached_by_the_writer");
                     }
                     probe(&format!("c19_crash_in_{op}"));
                     if target == "work.skf" {
                         probe("c19_crash_during_in_place_overwrite");
                     }
-                    let left = dir.read(target).unwrap_or_default();
-                    if left.len() as u64 > n || left[..] != full[..left.len()] {
-                        viol = Some((format!("crash:{op}-leftover-not-a-prefix"), format!("crash_at_byte({n}): {} bytes left which are not a prefix of the {} bytes the uncrashed process writes", left.len(), full.len())));
-                        break;
+                    // What may lie at the target now: nothing; the file that was there before,
+                    // untouched; the complete new file; or a damaged file. Only the last is C19's
+                    // business: a proper prefix of the new file must be rejected or decode to the new
+                    // file's content; anything else (e.g. new bytes followed by old ones) must be
+                    // rejected or decode to the new or the old content - never to a third thing.
+                    let Some(left) = dir.read(target) else {
+                        probe("c19_crash_left_no_file_at_the_target");
+                        continue;
+                    };
+                    if old_bytes.as_ref() == Some(&left) {
+                        probe("c19_crash_left_the_old_file_untouched");
+                        continue;
                     }
+                    if left == full {
+                        probe("c19_crash_after_the_file_was_complete");
+                        continue;
+                    }
+                    let is_prefix = left.len() < full.len() && full[..left.len()] == left[..];
+                    probe(if is_prefix { "c19_crash_left_a_proper_prefix" } else { "c19_crash_left_other_bytes_than_a_prefix" });
                     // The leftover is judged WHERE IT LIES, with everything else the interrupted writer
                     // left in the directory (temporary or backup files included): that is what the next
                     // command of a user meets. The directory state right after the crash is restored
@@ -666,9 +750,36 @@ impl Workload for DamageWorkload {
                     let tp = tpath.to_str().unwrap();
                     let l64 = load_as::<u64>(tp);
                     let l128 = load_as::<u128>(tp);
-                    if l64.is_ok() || l128.is_ok() {
-                        viol = Some((format!("crash:{op}-leftover-accepted"), format!("crash_at_byte({n}) of {}: the {} bytes left behind as {target} are accepted by a loader (directory after the crash: {:?})", full.len(), left.len(), post.keys().collect::<Vec<_>>())));
+                    let mut harmless = false;
+                    for got in [l64, l128].into_iter().flatten() {
+                        let as_new = new_content.as_ref() == Some(&got);
+                        let as_old = !is_prefix && old_bytes.is_some() && got == content;
+                        if as_new || as_old {
+                            harmless = true;
+                            probe(if as_new { "c19_crash_leftover_reads_as_the_new_file" } else { "c19_crash_leftover_reads_as_the_old_file" });
+                        } else {
+                            viol = Some((
+                                format!("crash:{op}-leftover-accepted"),
+                                format!(
+                                    "crash_at_byte({n}) of {}: the {} bytes left behind as {target} ({}) are accepted by a loader as k={} names={:?} rows={}, which is {} (directory after the crash: {:?})",
+                                    full.len(),
+                                    left.len(),
+                                    if is_prefix { "a proper prefix of the new file" } else { "not a prefix of the new file" },
+                                    got.0,
+                                    got.2,
+                                    got.3.len(),
+                                    if old_bytes.is_some() && (&got.0, &got.1, &got.2, &got.3) == (&content.0, &content.1, &content.2, &content.3) { "the content of the file that was there before" } else { "neither the new nor the old content" },
+                                    post.keys().collect::<Vec<_>>()
+                                ),
+                            ));
+                        }
+                    }
+                    if viol.is_some() {
                         break;
+                    }
+                    if harmless {
+                        restore(dir);
+                        continue;
                     }
                     for sc in SUBCOMMANDS {
                         restore(dir);
